@@ -11,6 +11,8 @@ class NumberUnaryExpr(number_unary_expr.NumberUnaryExpr):
         if self._unary_op.raw_text == '+':
             return self._operand.value
         elif self._unary_op.raw_text == '-':
-            return -self._operand.value
+            value = self._operand.value
+            # Unary minus would round to the context precision (and, like it, never yields a negative zero).
+            return value.copy_negate() if value else +value
         else:
             assert False
